@@ -16,8 +16,8 @@ fn field<'a>(case: &'a str, key: &str) -> &'a str {
 }
 
 pub fn enum_arith(seed: u64) -> Vec<String> {
-    let ints = [0i64, 1, -1, 2, 7, -3, 10, i64::MAX, i64::MIN, 1 << 53, (1 << 53) + 1];
-    let floats = [0.0f64, -0.0, 0.5, -2.5, 1e308, -1e-308, 3.0, f64::INFINITY, 9007199254740993.0];
+    let ints = [0i64, 1, -1, 2, 7, -3, 10, i64::MAX, i64::MIN, 1 << 53, (1 << 53) + 1, 16777217, 123456789];
+    let floats = [0.0f64, -0.0, 0.5, -2.5, 1e308, -1e-308, 3.0, f64::INFINITY, 9007199254740993.0, 0.1, 1.0000000000000002];
     let mut pool: Vec<N> = ints.iter().map(|i| N::I(*i)).collect();
     pool.extend(floats.iter().map(|f| N::F(*f)));
     let mut out = vec![];
